@@ -378,12 +378,22 @@ func (*Ufs) Open(req *SrvReq) {
 	req.RespondRopen(dir2Qid(fid.st), 0)
 }
 
+// validName reports whether s can name a directory entry.
+func validName(s string) bool {
+	return s != "" && s != "." && s != ".." && !strings.Contains(s, "/")
+}
+
 func (*Ufs) Create(req *SrvReq) {
 	fid := req.Fid.Aux.(*ufsFid)
 	tc := req.Tc
 	err := fid.stat()
 	if err != nil {
 		req.RespondError(err)
+		return
+	}
+
+	if !validName(tc.Name) {
+		req.RespondError(&Error{"invalid file name", EINVAL})
 		return
 	}
 
